@@ -40,6 +40,7 @@ Record table := mkTable {
   t_meshset_need : bool;    (* simu.mesh setter: Need_Update *)
   t_meshset_clear : bool;   (* simu.mesh setter: clear_cached_computed_values(self) *)
   t_meshset_sub : bool;     (* simu.mesh setter: mesh._Add_observer(self) *)
+  t_meshset_initsols : bool; (* simu.mesh setter: UNCONDITIONAL self.__Init_Sols_n() (solution vectors of the old mesh dropped) *)
   t_updmesh_need : bool;    (* _Simu.__Update_mesh (Set_Iter on another mesh): Need_Update *)
   t_updmesh_clear : bool;
   t_bcinit : nmode;         (* Bc_Init raises Need_Update: never / if Lagrange conditions exist / always *)
@@ -67,7 +68,7 @@ Definition table_ok (T : table) : bool :=
   t_param_need T && t_model_notify T && t_upd_model_need T && t_upd_mesh_need T &&
   t_upd_mesh_clear T && t_init_sub_model T && t_pf_sub_material T && t_rho_need T &&
   t_ray_need T && forallb (fun k => t_mesh_clear T k && t_mesh_notify T k) all_mops &&
-  t_meshset_need T && t_meshset_sub T && t_updmesh_need T &&
+  t_meshset_need T && t_meshset_sub T && t_meshset_initsols T && t_updmesh_need T &&
   not_never (t_bcinit T) && not_never (t_dirichlet T) && not_never (t_lagrange T) &&
   t_newton_need T && t_pf_need_d T && t_pf_need_u T && t_pf_setiter_d T && t_pf_setiter_u T &&
   t_pf_dmg_inval_u T && t_pf_el_inval_d T && t_csr_key_groups T && t_csr_key_ndof T &&
@@ -81,13 +82,14 @@ Definition ckey := (nat * N)%type.
 Definition ckey_eqb (a b : ckey) := Nat.eqb (fst a) (fst b) && N.eqb (snd a) (snd b).
 
 Record key := mkKey { k_mesh : nat; k_geo : N; k_par : N; k_rho : N; k_ray : N; k_ldim : N;
-                      k_mshape : N; k_csr : ckey; k_sol : N; k_derived : N }.
+                      k_mshape : N; k_csr : ckey; k_sol : N; k_derived : N; k_solmesh : nat }.
 
 Record cfgS := mkCfg { cur : nat; rho : N; ray : N; nlag : N; ndir : N; algo : N; solU : N; solD : N }.
 Record cacheS := mkCache { need : bool; kcmf : option key; csr : list (ckey * ckey); massc : list (ckey * N) }.
 Record pfS := mkPf { updD : bool; updU : bool; kD : option key; kU : option key }.
 Record regS := mkReg { subs : list nat; hist : list nat; subm : bool; submat : bool; iters : list nat }.
-Record simS := mkSim { kd : kind; cf : cfgS; ca : cacheS; pf : pfS; rg : regS }.
+(* [st]: the mesh the live solution vectors (u, v, a / d) belong to *)
+Record simS := mkSim { kd : kind; cf : cfgS; ca : cacheS; pf : pfS; rg : regS; st : nat }.
 (* [mcache]: the derived quantities cached on the model object, tagged with the parameter version they
    were computed from (None = not computed yet) *)
 Record world := mkW { clock : N; par : N; mcache : option N; meshes : list meshS; sims : list simS }.
@@ -98,7 +100,7 @@ Definition ldim (c : cfgS) : N := if N.eqb (nlag c) 0 then 0%N else (nlag c + nd
 Definition ideal (p : N) (ms : list meshS) (s : simS) (solv : N) : key :=
   let c := cf s in
   mkKey (cur c) (pose (mget ms (cur c))) p (rho c) (ray c) (ldim c)
-        (shape (mget ms (cur c))) (cur c, ldim c) solv p.
+        (shape (mget ms (cur c))) (cur c, ldim c) solv p (cur c).
 
 Fixpoint lookup {V} (k : ckey) (l : list (ckey * V)) : option V :=
   match l with [] => None | (k', v) :: r => if ckey_eqb k k' then Some v else lookup k r end.
@@ -123,7 +125,7 @@ Definition derived_used (T : table) (p : N) (mc : option N) : N :=
 Definition asm_key (T : table) (p : N) (mc : option N) (ms : list meshS) (s : simS) (solv : N) : key :=
   let c := cf s in
   mkKey (cur c) (geo_used (mget ms (cur c))) p (rho c) (ray c) (ldim c)
-        (mass_used T ms s) (csr_used T s) solv (derived_used T p mc).
+        (mass_used T ms s) (csr_used T s) solv (derived_used T p mc) (st s).
 
 (* what the next Get_K_C_M_F / Solve uses *)
 Definition observe (T : table) (p : N) (mc : option N) (ms : list meshS) (s : simS) : list (option key) :=
@@ -141,10 +143,11 @@ Definition ideal_obs (p : N) (ms : list meshS) (s : simS) : list (option key) :=
   end.
 
 (* ---- field updates ------------------------------------------------------------------- *)
-Definition set_cf (s : simS) (c : cfgS) := mkSim (kd s) c (ca s) (pf s) (rg s).
-Definition set_ca (s : simS) (c : cacheS) := mkSim (kd s) (cf s) c (pf s) (rg s).
-Definition set_pf (s : simS) (c : pfS) := mkSim (kd s) (cf s) (ca s) c (rg s).
-Definition set_rg (s : simS) (c : regS) := mkSim (kd s) (cf s) (ca s) (pf s) c.
+Definition set_cf (s : simS) (c : cfgS) := mkSim (kd s) c (ca s) (pf s) (rg s) (st s).
+Definition set_ca (s : simS) (c : cacheS) := mkSim (kd s) (cf s) c (pf s) (rg s) (st s).
+Definition set_pf (s : simS) (c : pfS) := mkSim (kd s) (cf s) (ca s) c (rg s) (st s).
+Definition set_rg (s : simS) (c : regS) := mkSim (kd s) (cf s) (ca s) (pf s) c (st s).
+Definition set_st (s : simS) (m : nat) := mkSim (kd s) (cf s) (ca s) (pf s) (rg s) m.
 
 Fixpoint upd_nth {A} (i : nat) (f : A -> A) (l : list A) : list A :=
   match l, i with
@@ -209,7 +212,7 @@ Definition set_solD (v : N) (s : simS) :=
 Definition set_flags (d u : bool) (s : simS) := set_pf s (mkPf d u (kD (pf s)) (kU (pf s))).
 
 (* one Solve.  [v1 v2] are two fresh versions. *)
-Definition solve_sim (T : table) (p : N) (mc : option N) (ms : list meshS) (v1 v2 : N) (s : simS) : simS :=
+Definition solve_sim0 (T : table) (p : N) (mc : option N) (ms : list meshS) (v1 v2 : N) (s : simS) : simS :=
   match kd s with
   | KLin => set_solU v1 (getk_sim T p mc ms 0 s)
   | KNonLin => let s1 := if t_newton_need T then raise T s else s in
@@ -221,6 +224,9 @@ Definition solve_sim (T : table) (p : N) (mc : option N) (ms : list meshS) (v1 v
       if t_pf_el_inval_d T then set_flags false (updU (pf s3)) s3 else s3
   end.
 
+Definition solve_sim (T : table) (p : N) (mc : option N) (ms : list meshS) (v1 v2 : N) (s : simS) : simS :=
+  let s' := solve_sim0 T p mc ms v1 v2 s in set_st s' (cur (cf s')).
+
 Definition set_cur (m : nat) (s : simS) :=
   set_cf s (mkCfg m (rho (cf s)) (ray (cf s)) (nlag (cf s)) (ndir (cf s)) (algo (cf s)) (solU (cf s)) (solD (cf s))).
 Definition set_bc (l d : N) (s : simS) :=
@@ -230,33 +236,35 @@ Definition setiter_sim (T : table) (j : nat) (v1 v2 : N) (s : simS) : simS :=
   match nth_error (iters (rg s)) j with
   | None => s
   | Some m =>
-      let s1 := if Nat.eqb m (cur (cf s)) then s else
-                  let a := set_cur m s in
+      (* the restored fields are those of the entry, i.e. of mesh m *)
+      let s0 := set_st (set_solD v2 (set_solU v1 s)) m in
+      let s1 := if Nat.eqb m (cur (cf s)) then s0 else
+                  let a := set_cur m s0 in
                   let b := if t_updmesh_clear T then clear_simcache a else a in
                   if t_updmesh_need T then raise T b else b in
-      let s2 := set_solD v2 (set_solU v1 s1) in
       match kd s with
-      | KPF => set_flags (if t_pf_setiter_d T then false else updD (pf s2))
-                         (if t_pf_setiter_u T then false else updU (pf s2)) s2
-      | _ => s2
+      | KPF => set_flags (if t_pf_setiter_d T then false else updD (pf s1))
+                         (if t_pf_setiter_u T then false else updU (pf s1)) s1
+      | _ => s1
       end
   end.
 
 Definition setmesh_sim (T : table) (m : nat) (v1 v2 : N) (s : simS) : simS :=
-  let a := set_cur m s in
+  (* __Init_Sols_n(): the solution vectors now belong to the new mesh (only if the call is unconditional) *)
+  let s0 := if t_meshset_initsols T then set_st (set_solD v2 (set_solU v1 s)) m else s in
+  let a := set_cur m s0 in
   let a := set_rg a (mkReg (if t_meshset_sub T then m :: subs (rg a) else subs (rg a))
                            (hist (rg a) ++ [m]) (subm (rg a)) (submat (rg a)) (iters (rg a))) in
   let b := if t_meshset_clear T then clear_simcache a else a in
   let c := if t_meshset_need T then raise T b else b in
-  (* Bc_Init() then __Init_Sols_n() *)
+  (* Bc_Init() *)
   let lag := negb (N.eqb (nlag (cf c)) 0) in
-  let d := apply_mode T (t_bcinit T) lag (set_bc 0 0 c) in
-  set_solD v2 (set_solU v1 d).
+  apply_mode T (t_bcinit T) lag (set_bc 0 0 c).
 
 Definition new_sim (T : table) (k : kind) (m : nat) (v : N) : simS :=
   mkSim k (mkCfg m v 0 0 0 0 v v) (mkCache true None [] []) (mkPf false false None None)
         (mkReg ((if t_meshset_sub T then [m] else []) ++ (if t_init_sub_mesh T then [m] else []))
-               [m] (t_init_sub_model T) (t_pf_sub_material T) []).
+               [m] (t_init_sub_model T) (t_pf_sub_material T) []) m.
 
 Inductive op :=
 | OParam (sub : bool)
@@ -350,7 +358,7 @@ Definition key_eqb (a b : key) : bool :=
   Nat.eqb (k_mesh a) (k_mesh b) && N.eqb (k_geo a) (k_geo b) && N.eqb (k_par a) (k_par b) &&
   N.eqb (k_rho a) (k_rho b) && N.eqb (k_ray a) (k_ray b) && N.eqb (k_ldim a) (k_ldim b) &&
   N.eqb (k_mshape a) (k_mshape b) && ckey_eqb (k_csr a) (k_csr b) && N.eqb (k_sol a) (k_sol b) &&
-  N.eqb (k_derived a) (k_derived b).
+  N.eqb (k_derived a) (k_derived b) && Nat.eqb (k_solmesh a) (k_solmesh b).
 Definition okey_eqb (a b : option key) : bool :=
   match a, b with Some x, Some y => key_eqb x y | None, None => true | _, _ => false end.
 Fixpoint obs_eqb (a b : list (option key)) : bool :=
@@ -381,10 +389,10 @@ Definition flag_of (T : table) (id : nat) : bool :=
   | 24 => t_newton_need T | 25 => t_pf_need_d T | 26 => t_pf_need_u T | 27 => t_pf_setiter_d T
   | 28 => t_pf_setiter_u T | 29 => t_pf_dmg_inval_u T | 30 => t_pf_el_inval_d T
   | 31 => t_csr_key_groups T | 32 => t_csr_key_ndof T | 33 => t_mass_key_group T
-  | 34 => t_model_cache_refresh T
+  | 34 => t_model_cache_refresh T | 35 => t_meshset_initsols T
   | _ => true
   end.
-Definition all_ids : list nat := seq 1 34.
+Definition all_ids : list nat := seq 1 35.
 Definition failing (T : table) : list nat := filter (fun id => negb (flag_of T id)) all_ids.
 
 (* the table with the flags listed in [off] switched off (everything else as the property needs) *)
@@ -392,7 +400,7 @@ Definition mk_table (off : list nat) : table :=
   let on id := negb (existsb (Nat.eqb id) off) in
   mkTable (on 1) (on 2) (on 3) (on 4) (on 5) (on 6) true (on 7) (on 8) (on 9)
           (fun k => on (10 + mop_idx k)) (fun k => on (14 + mop_idx k))
-          (on 18) (on 40) (on 19) (on 20) (on 41)
+          (on 18) (on 40) (on 19) (on 35) (on 20) (on 41)
           (if on 21 then NIfLag else NNever) (if on 22 then NIfLag else NNever) NNever
           (if on 23 then NAlways else NNever) true (on 24) (on 25) (on 26) (on 27) (on 28) (on 29) (on 30)
           (on 31) (on 32) (on 33) (on 34).
@@ -427,6 +435,7 @@ Definition witness (id : nat) : list op :=
   | 32 => [lin; OGetK 0 false; OLagrange 0]
   | 33 => [nl; ONewMesh; OSolve 0; OMeshMove 1 MCoordSet; OSetMesh 0 1]
   | 34 => [pfs; OGetK 0 false; OParam true]
+  | 35 => [lin; OSolve 0; ONewMesh; OSetMesh 0 1]
   | _ => []
   end.
 
@@ -455,7 +464,8 @@ Record SimInv (p : N) (ms : list meshS) (s : simS) : Prop := mkSimInv {
   i_mass : Forall (fun e => In (fst (fst e)) (subs (rg s)) /\ snd e = shape (mget ms (fst (fst e)))) (massc (ca s));
   i_pfU : kd s = KPF -> updU (pf s) = true -> kU (pf s) = Some (ideal p ms s (solD (cf s)));
   i_pfD : kd s = KPF -> updD (pf s) = true -> kD (pf s) = Some (ideal p ms s (solU (cf s)));
-  i_iters : Forall (fun m => In m (subs (rg s))) (iters (rg s))
+  i_iters : Forall (fun m => In m (subs (rg s))) (iters (rg s));
+  i_st : st s = cur (cf s)
 }.
 
 Definition WInv (w : world) : Prop :=
